@@ -29,10 +29,28 @@ def refCounts (src : String) (nruns : Nat) : String :=
     | some a =>
       s!"ok runs={nruns} trees={(a.treeAdds.map (·.1)).eraseDups.length} data={a.dataAdds.eraseDups.length}"
 
+/-- rayon pool field of a run (`<n>` installed pool, `g<n>` child process with a global pool of n, `0` default pool,
+    n ≤ 64).  The model result does not depend on it — that is the property; it is only checked for well-formedness. -/
+def validPool (s : String) : Bool :=
+  let (g, num) := if s.startsWith "g" then (true, s.drop 1) else (false, s)
+  match num.toNat? with
+  | some n => n ≤ 64 && num.all Char.isDigit && (!g || n ≥ 1)
+  | none => false
+
 def validRun (t : String) : Option Unit :=
   match t.splitOn "." with
   | [a, b, c] => if a.toNat?.isSome && b.toNat?.isSome && c.toNat?.isSome then some () else none
+  | [a, b, c, p] =>
+    if a.toNat?.isSome && b.toNat?.isSome && c.toNat?.isSome && validPool p then some () else none
   | _ => none
+
+/-- `seed`, `seed.pool` or `seed.pool.watchdog-seconds` -/
+def validSeed (s : String) : Bool :=
+  match s.splitOn "." with
+  | [a] => a.toNat?.isSome
+  | [a, p] => a.toNat?.isSome && validPool p
+  | [a, p, w] => a.toNat?.isSome && validPool p && (match w.toNat? with | some n => 1 ≤ n && n ≤ 600 | none => false)
+  | _ => false
 
 def validRuns (s : String) : Option Nat :=
   match (s.splitOn ",").mapM validRun with
@@ -41,8 +59,8 @@ def validRuns (s : String) : Option Nat :=
 
 def handle : List String → String
   | ["stream", seed, forest, roots] =>
-    match seed.toNat?, parseForest forest, Driver.C11.parseLabels roots with
-    | some _, some forest, some roots =>
+    match validSeed seed, parseForest forest, Driver.C11.parseLabels roots with
+    | true, some forest, some roots =>
       let children (id : Nat) : List Nat := ((forest.find? (·.1 = id)).map (·.2)).getD []
       -- any delivery order yields the same set (Props.C13.treeStreamerOnce_any_order); take the oldest first
       let s := runSched children (init roots) (List.replicate (forest.length + roots.length + 2) 0)
